@@ -243,14 +243,16 @@ DiffProp(e, d) ==
          [] d = "ks" -> "C09"
 
 \* invariants evaluated on the re-synchronised state
+\* (edge-triggered: a broken invariant is reported at the step that breaks it)
 InvTags(Sold, S2) ==
-     (IF NoDoubleSpend(S2) THEN {} ELSE {<<"C01", "secret-consumed-twice">>})
+     (IF NoDoubleSpend(S2) \/ ~NoDoubleSpend(Sold) THEN {} ELSE {<<"C01", "secret-consumed-twice">>})
   \cup (IF \A s \in DOMAIN Sold.proof : Sold.proof[s].st = "spent" => S2.proof[s].st = "spent"
         THEN {} ELSE {<<"C01", "spent-not-forever">>})
-  \cup (IF \A s \in DOMAIN S2.proof : S2.proof[s].st # "both" THEN {} ELSE {<<"C01", "pending-and-spent">>})
-  \cup (IF NoInflation(S2) THEN {} ELSE {<<"C02", "inflation">>})
-  \cup (IF IssueOncePerPayment(S2) THEN {} ELSE {<<"C03", "issued-beyond-payments">>})
-  \cup (IF OneActiveKeyset(S2) THEN {} ELSE {<<"C09", "not-exactly-one-active-keyset">>})
+  \cup (IF \A s \in DOMAIN S2.proof : S2.proof[s].st = "both" => (s \in DOMAIN Sold.proof /\ Sold.proof[s].st = "both")
+        THEN {} ELSE {<<"C01", "pending-and-spent">>})
+  \cup (IF NoInflation(S2) \/ ~NoInflation(Sold) THEN {} ELSE {<<"C02", "inflation">>})
+  \cup (IF IssueOncePerPayment(S2) \/ ~IssueOncePerPayment(Sold) THEN {} ELSE {<<"C03", "issued-beyond-payments">>})
+  \cup (IF OneActiveKeyset(S2) \/ ~OneActiveKeyset(Sold) THEN {} ELSE {<<"C09", "not-exactly-one-active-keyset">>})
 
 StateFromInit(e) ==
   InitState([k \in DOMAIN e.post.ks |-> [fee |-> e.post.ks[k].fee, active |-> e.post.ks[k].active]], e.a.limits)
